@@ -305,9 +305,9 @@ let () =
            let ped = (mode = "P") and st = int_of_string st in
            let txt = List.map (fun c -> ntab.(c)) (unhex hxs) in
            let toks = (match tok_line true (not ped || st >= 6) txt with TOk l -> l | TErr _ -> []) in
-           let show tbl =
+           let show which tbl =
              ub_marker := false;
-             let r = spec_line fval ferange f_of_z 0.0 (fun d -> d = 0.0) (fun d -> d < 0.0) f_trunc f_trunc_i f_small !the_cfg
+             let r = (if which then Model.impl_line else Model.spec_line) fval ferange f_of_z 0.0 (fun d -> d = 0.0) (fun d -> d < 0.0) f_trunc f_trunc_i f_small !the_cfg
                        tbl ped (nat_of_int st) toks in
              let code c = (match c with c0 :: r when int_of_n c0 = 46 -> r | _ -> c) in
              let fld c ix = Printf.sprintf "S%s[%s]" (hx (code c)) (z_sdec ix) in
@@ -340,7 +340,8 @@ let () =
                | LOk (E_SARRAY vs) -> "SARRAY:" ^ cat hx vs) in
              if !ub_marker then "UB" else s in
            let code_tbl g = (match code_gate g with Some v -> v | None -> O) in
-           Printf.printf "%s\t%s\n" (show code_tbl) (show spec_gate)
+           (* model of the _GD_Parse* functions with the translated gates; LineSpec with the same gates; LineSpec with the HISTORY gates *)
+           Printf.printf "%s\t%s\t%s\n" (show true code_tbl) (show false code_tbl) (show false spec_gate)
        | _ -> print_endline "BAD")
     done with End_of_file -> ());
     exit 0
